@@ -5,6 +5,7 @@ resolved in K fresh Nodes/NodeResolver pairs under random query orders and compa
 """
 from __future__ import annotations
 
+import os
 import random
 
 from vf.common import Acc, Ctx, sig_of, fmt_exc
@@ -147,7 +148,7 @@ def finder_laws(acc: Acc, root, label: str, case: dict) -> list[tuple[str, objec
 
 # ---------------------------------------------------------------------------- laws on Nodes
 
-def nodes_laws(acc: Acc, root, label: str, case: dict, k_perm: int, seed: int) -> None:
+def nodes_laws(acc: Acc, root, label: str, case: dict, k_perm: int, seed: int) -> dict[str, str] | None:
 	from rogw.tranp.errors import Errors
 	from rogw.tranp.syntax.ast.path import EntryPath
 	from vf.trees import fresh_nodes, walk_entries
@@ -309,7 +310,31 @@ def nodes_laws(acc: Acc, root, label: str, case: dict, k_perm: int, seed: int) -
 			acc.see('permuted_resolutions', 'same' if got == baseline[p] else 'different')
 			if got != baseline[p]:
 				bad('order-dependent-class', f'{p!r}: {got} under a permuted query order (k={k}), {baseline[p]} in document order')
-				return
+				return None
+	return baseline
+
+
+def fresh_process_class_maps(sources: list[str]) -> list[dict[str, str] | None]:
+	"""One new interpreter per source (vf.mon.class_map), all started together: what the node classes of that tree are in a process that
+	has never resolved another tree."""
+	import json
+	import subprocess
+	import sys
+	from vf.common import REPO, ROOT
+	env = dict(os.environ, PYTHONPATH=os.pathsep.join([ROOT, REPO, os.path.join(ROOT, '.deps', 'py313')]), PYTHONDONTWRITEBYTECODE='1', PYTHONHASHSEED='0')
+	procs = []
+	for src in sources:
+		pr = subprocess.Popen([sys.executable, '-X', 'utf8', '-m', 'vf.mon.class_map'], cwd=REPO, env=env, stdin=subprocess.PIPE, stdout=subprocess.PIPE, stderr=subprocess.PIPE, text=True)
+		procs.append(pr)
+	out: list[dict[str, str] | None] = []
+	for pr, src in zip(procs, sources):
+		try:
+			so, _ = pr.communicate(src, timeout=300)
+			out.append(json.loads(so) if pr.returncode == 0 else None)
+		except Exception:  # noqa
+			pr.kill()
+			out.append(None)
+	return out
 
 
 # ---------------------------------------------------------------------------- cases
@@ -347,7 +372,15 @@ def check_case(acc: Acc, case: dict, k_perm: int) -> None:
 	acc.see('tree_kind', kind)
 	res = finder_laws(acc, root, kind, case)
 	if res is not None and (kind != 'dict' or case.get('nodes', True)):
-		nodes_laws(acc, root, kind, case, k_perm, case.get('seed', 0))
+		classes = nodes_laws(acc, root, kind, case, k_perm, case.get('seed', 0))
+		want = case.get('fresh_process_classes')
+		if classes is not None and want is not None:
+			# the class of a node is a function of its tree alone: the same in this long-lived process as in one that never saw another tree
+			for p, c in classes.items():
+				acc.see('compared_with_fresh_process', 'same' if want.get(p) == c else 'different')
+				if want.get(p) != c:
+					acc.violation(f'{kind}/class-depends-on-earlier-trees', f'{p!r}: {c} in this process (after other trees under the same module path), {want.get(p)} in a fresh process', {k: v for k, v in case.items() if k != 'fresh_process_classes'})
+					break
 	sample = None
 	if kind == 'dict':
 		sample = {'kind': kind, 'tree': case['tree']} if len(str(case['tree'])) < 500 else None
@@ -386,9 +419,13 @@ def shard(ctx: Ctx, acc: Acc) -> None:
 	n = N_TREES[ctx.tier]
 	k = K_PERM[ctx.tier]
 	real = real_module_paths()
+	recent: list[dict] = []
 	if ctx.shard == 0:
+		fresh = fresh_process_class_maps(FIXED_SOURCES)
 		for j, src in enumerate(FIXED_SOURCES):
-			check_case(acc, {'kind': 'source', 'source': src, 'seed': 9000 + j}, max(k, 6))
+			if fresh[j] is None:
+				acc.inconc('fresh-process class map not obtained', src[:80])
+			check_case(acc, {'kind': 'source', 'source': src, 'seed': 9000 + j, 'fresh_process_classes': fresh[j]}, max(k, 6))
 	for i in range(n):
 		if not ctx.mine(i):
 			continue
@@ -412,7 +449,24 @@ def shard(ctx: Ctx, acc: Acc) -> None:
 		except Exception as e:  # noqa
 			acc.extra.setdefault('harness_errors', []).append(fmt_exc(e) + repr(case)[:800])
 			return
+		if case['kind'] == 'source':
+			recent.append(case)
+			del recent[:-(4 if ctx.quick else 24)]
+	# the last generated sources once more, at the end of this process's history, against their fresh-process class maps
+	try:
+		fresh = fresh_process_class_maps([c['source'] for c in recent])
+		for c, f in zip(recent, fresh):
+			if f is not None:
+				check_case(acc, dict(c, fresh_process_classes=f), 1)
+	except Exception as e:  # noqa
+		acc.extra.setdefault('harness_errors', []).append(fmt_exc(e))
 
 
 def replay(ctx: Ctx, case: dict, acc: Acc) -> None:
+	if case.get('seed', 0) >= 9000 and case.get('kind') == 'source':
+		# the fixed sources are a history: all of them, in their order, each compared with its fresh-process class map
+		fresh = fresh_process_class_maps(FIXED_SOURCES)
+		for j, src in enumerate(FIXED_SOURCES):
+			check_case(acc, {'kind': 'source', 'source': src, 'seed': 9000 + j, 'fresh_process_classes': fresh[j]}, K_PERM['thorough'])
+		return
 	check_case(acc, case, K_PERM['thorough'])
